@@ -33,13 +33,15 @@ def spell_chunk(args):
         sp = []
         for j in range(nsp):
             if j < 2:
-                only = None
+                # every freedom C03 documents, independently per site — and nothing else (omitting the envelope line of a
+                # document named INFERRED is a reader feature, not one of C03's freedoms)
+                only = set(FREEDOMS) | {"body_indent"}
                 p = [0.35, 0.8][j]
             else:
                 only = {FREEDOMS[(idx + j) % len(FREEDOMS)]}
                 p = 0.9
             t, _ = G.render(d, G.Spelling(rng, p=p, only=only))
-            sp.append((sorted(only) if only else "all", t, TC.eval_text(t)))
+            sp.append((sorted(only) if len(only) == 1 else "all", t, TC.eval_text(t)))
         out.append({"model": d, "ctext": ctext, "c": TC.eval_text(ctext), "spellings": sp})
     return out
 
